@@ -281,6 +281,13 @@ func vMswRun(t *testing.T) {
 				}
 			}
 			obs = "granted"
+			for _, g := range got {
+				if g.result == protocol_RESULT_EXPRIED {
+					// C06: the hold was granted with an expiry of 10 SECONDS (only its wait timeout is in milliseconds) and fewer than 10 s of
+					// server time have passed
+					out.monitor("C06:early:granted-from-millisecond-wait", fmt.Sprintf("a request with a %d ms wait and a 10 s expiry was granted from the queue and ended with EXPRIED %v after the grant, in less than 10 s of server time", T, g.at.Sub(t0)), replay)
+				}
+			}
 			if !granted {
 				obs = "not-granted"
 			} else if timedOut || len(got) != 1 || !stillHeld {
